@@ -70,7 +70,7 @@ dev_impl! {
             None => None,
         };
         let tensor = wf("tensor", &df.tensor(&dg))?;
-        let fu = SpecFunctor { spec: &c.spec };
+        let fu = SpecFunctor { spec: &c.spec, native: c.extra_schedules % 2 == 1 };
         let functor = wf("functor", &<SpecFunctor as Functor<K, L, L, L, L>>::map_arrow(&fu, &df))?;
         let optic = Self::c14_typing(&c.optic)?.into_iter().filter(|p| p.0 == "optic-image" || p.0 == "adapted-form").map(|p| (p.0, p.1)).collect();
         let layer = Self::c15_layer(&c.d);
